@@ -320,6 +320,8 @@ DEFAULT_TLS_SPEC = dict(
     after_sh=None,         # None | int: length of a message body following SH in the same record when sh_ext == none
     hs_secrets=True, ccs13=True, pad13=0, tickets=0, cert_len=300, ske=False,
     history=[[0, 20, 0], [1, 40, 0]],   # [dir (0 client, 1 server), plaintext length, padding amount]
+    close=0,               # bit 0: client ends with close_notify, bit 1: server does (after all application data of both directions)
+    abort_after_ch=None,   # None | [is_server, level, desc]: the handshake is aborted by a plaintext alert right after the ClientHello
     rsa_label=False,       # key log gives "RSA <..>"?  (not used: needs encrypted pre-master id) kept False
     explicit_seq_nonce=True,
 )
@@ -370,6 +372,12 @@ class TlsConn:
         ch = hs(1, ch_body)
         ch_rec_ver = b"\x03\x00" if version == SSL30 else b"\x03\x01"
         self._plain(False, 0x16, ch, ch_rec_ver, "CH")
+        if sp.get("abort_after_ch"):
+            who, level, desc = sp["abort_after_ch"]
+            self._plain(bool(who), 0x15, bytes([level, desc]), rv if version != SSL30 else b"\x03\x00", "ALERT")
+            self.hs_last = len(self.events) - 1
+            self.keylog.append(f"CLIENT_RANDOM {self.cr.hex()} {rbytes(rnd, 48).hex()}")
+            return
         # ---- ServerHello
         sh_ext = b""
         if version == TLS13:
@@ -406,6 +414,10 @@ class TlsConn:
                 self.alert(d == 4, 1, 0)
                 continue
             self.app(bool(d), rbytes(rnd, ln), pad)
+        if sp.get("close", 0) & 1:
+            self.alert(False, 1, 0)
+        if sp.get("close", 0) & 2:
+            self.alert(True, 1, 0)
 
     def ticket(self, ln=60):
         self.events.append((True, self.w[True].protect(0x16, hs(4, rbytes(self.rnd, ln)), self.pad13), "NST"))
